@@ -38,6 +38,13 @@ def run_check(prop, tier, include_root=None, write=True, quiet=False):
         mod.run(S)
         if tier == 'thorough' and hasattr(mod, 'run_thorough'):
             mod.run_thorough(S)
+        if tier == 'thorough':
+            # the same rules on the other configurations: assertions enabled (-UNDEBUG) with two more value types
+            # (uintptr_t inline, 64-byte over-aligned out-of-line), and the tree parsed with the hook guard off
+            for cfg in ('debug', 'guard_off'):
+                S.config = cfg
+                mod.run(S)
+            S.config = os.environ.get('YKVERIF_CONFIG', 'pinned')
         if tier == 'thorough' and include_root is None:
             from yk import mutants
             S.mutants = mutants.run_corpus(prop, run_check)
